@@ -7,8 +7,18 @@
 From Coq Require Import List String Bool Arith.
 From Helm Require Import Engine.Types Engine.Eff Engine.Ops Engine.OpsFix Engine.Cluster Engine.Seq Engine.SeqProofs
                          Engine.Conc Engine.ConcProofs Engine.ConcLocal Engine.ConcProofsB
-                         Engine.ConcRG Engine.ConcRGProgs Engine.ConcPrune Engine.ConcC09.
+                         Engine.ConcRG Engine.ConcRGProgs Engine.ConcPrune Engine.ConcC09 Engine.ConcGenC09.
+From Helm Require Import Gen.PendingC09.
 Import ListNotations.
+
+(* Translator obligation: the set of statuses for which Helm's Status.IsPending (status.go,
+   extracted with go/ast on every run into Gen/PendingC09.v) answers true is exactly the
+   model's [is_pending] — pending-install, pending-upgrade AND pending-rollback: the lock of the
+   protocol the theorems below rely on. *)
+Theorem C09_pending_table :
+  forall s : status, is_pending s = existsb (String.eqb (status_str s)) c09_pending_values.
+Proof. exact pending_table_ok. Qed.
+Print Assumptions C09_pending_table.
 
 (* Totality: when [run] ends every thread has returned (the statements below are about
    quiescent states), and the gate-granularity runner that the harness replays is an
